@@ -7,6 +7,7 @@ the edit may touch: the set A of tokens that may vanish and the set L of lines t
 import ast
 import io
 import tokenize
+import unicodedata
 
 from . import ops as O
 from . import progen
@@ -363,7 +364,7 @@ def allowed(pre, op, trivia):
     if isinstance(cont, ast.ExceptHandler) and field == 'type' and cont.name:
         hs = pre.extent(cont)
         for t in pre.toks:
-            if t.type == tokenize.NAME and t.string == cont.name and hs[0] <= t.start[0] <= cont.body[0].lineno:
+            if t.type == tokenize.NAME and unicodedata.normalize('NFKC', t.string) == cont.name and hs[0] <= t.start[0] <= cont.body[0].lineno:  # (the tree holds the NFKC-normalized name)
                 A.add(_ts(t))
     # couplings that validity forces: deleting Raise.exc deletes its cause
     if isinstance(cont, ast.Raise) and field == 'exc' and cont.cause is not None:
